@@ -152,6 +152,36 @@ func runC12(c *Ctx) {
 		c.verdict(okQ && len(sends) == 1, c.nm(q)+" | batch handed to the dispatcher or answered with the shutdown error", c.P.Pos(q.Pos()), "select{newBatches<-b | <-quit: errChan<-ErrWorkManagerShuttingDown}", "Query no longer guarantees an answer when the dispatcher is gone")
 	})
 
+	c.rule("C12.V1", "handing a batch to the dispatcher is a rendezvous: every channel stored into peerWorkManager.newBatches is made without capacity, so a send that succeeds in Query means the dispatcher has registered the batch (and owes it a verdict, C12.X1); a batch parked in a buffer when the dispatcher exits would never get one", func() {
+		nb := c.field("query", "peerWorkManager", "newBatches")
+		n := 0
+		okv := true
+		var sites []string
+		for _, fn := range c.P.Funcs {
+			ir.Instrs(fn, func(in ssa.Instruction) {
+				st, ok := in.(*ssa.Store)
+				if !ok {
+					return
+				}
+				fa, ok := st.Addr.(*ssa.FieldAddr)
+				if !ok || ir.FieldOfAddr(fa) != nb {
+					return
+				}
+				n++
+				sites = append(sites, c.at(in))
+				mk, isMk := ir.Strip(st.Val).(*ssa.MakeChan)
+				if !isMk {
+					okv = false
+					return
+				}
+				if k, isC := ir.ConstInt(mk.Size); !isC || k != 0 {
+					okv = false
+				}
+			})
+		}
+		c.verdict(okv && n >= 1, "query.peerWorkManager.newBatches | made without capacity", "", fmt.Sprintf("%d allocation(s), all unbuffered", n), "peerWorkManager.newBatches is (or may be) a buffered channel: Query's send succeeds while the batch is still in the buffer; when the dispatcher exits, its shutdown sweep only answers registered batches and the buffered ones never get a verdict", sites...)
+	})
+
 	c.rule("C12.G1", "success only if every request was answered: the nil verdict is sent only when batch.rem == 0, and rem is decremented only for a result without error", func() {
 		fn := c.fn(fnDispatch)
 		sendNil := func(in ssa.Instruction) bool {
